@@ -22,6 +22,12 @@ def main():
         jobs.append({"hash": 1, "tag": "mates-fresh", "searches": [{"pos": a, "depth": 1 + i % maxd}]})
         jobs.append({"hash": 1, "tag": "mates-warm", "searches": [{"pos": b, "depth": 3 + i % 3}, {"pos": a, "depth": 1 + (i // 2) % maxd},
                                                                    {"pos": b, "depth": 2 + i % 4}]})
+    # best line ends in an immediately recognised draw (dead material after a capture, fifty-move rule next ply)
+    draws = searches.draw_positions(chk, [chk.seed % 8, (chk.seed + 3) % 8] if q else list(range(8)), 24 if q else 3)
+    rng.shuffle(draws)
+    draws = draws[:300 if q else 6000]
+    for i in range(0, len(draws) - 1, 2):
+        jobs.append({"hash": 1, "tag": "draws", "searches": [{"pos": draws[i], "depth": 2 + i % 4}, {"pos": draws[i + 1], "depth": 1 + i % 5}]})
     pool = roots + walkp
     rng.shuffle(pool)
     for i in range(0, len(pool), 4):
@@ -45,7 +51,7 @@ def main():
     chk.cov.update({
         "states": stats["infos"], "transitions": stats["infos"], "traces_validated_against_impl": len(files),
         "evaluations": stats["infos"], "distinct_nontrivial": stats["mates"],
-        "search_stats": stats, "generated_mate_positions": len(mates), "of_which_mate_in_one": len(m1),
+        "search_stats": stats, "generated_mate_positions": len(mates), "generated_draw_positions": len(draws), "of_which_mate_in_one": len(m1),
         "rule": "every info line of every iteration: the line is replayed move by move through the rule book (each move must be legal where "
                 "it is played), depths 1,2,3,... within the limit, and every 'mate n' is verified: line length 2n-1 (or 2|n|) and the final "
                 "position is checkmate of the announced side. Positions: TLC-generated elementary endings near mate (fresh table and after a "
